@@ -12,7 +12,7 @@ import sys, os, json, argparse, hashlib, traceback
 HERE = os.path.dirname(os.path.abspath(__file__))
 sys.path.insert(0, HERE)
 import py2coq
-from py2coq import (Interp, TranslateError, E, SArr, Opaque, Struct, NPhi, var, cst, mk,
+from py2coq import (StateVec, Interp, TranslateError, E, SArr, Opaque, Struct, NPhi, var, cst, mk,
                     coq_prog, expr_size, translate_function, nested, lift)
 
 
@@ -120,12 +120,13 @@ class Jac(Interp):
         M = self.returned
         if not isinstance(M, py2coq.SMat) or M.col0 is None:
             self.err('_jacobian did not return the expected matrix')
-        h = var('h', 'p')
-        self.inputs['h'] = 'p'
+        # direction h = Pin0(hs, hi): hs = sigma-part, hi = iota-part
+        hs, hi = var('hs', 'p'), var('hi', 's')
+        self.inputs['hs'] = 'p'; self.inputs['hi'] = 's'
         z = cst(0)
-        ht = E('Pin0', (h, z), 'p')   # column 0 was overwritten: h[0] does not enter through D or the diagonal
+        ht = E('Pin0', (hs, z), 'p')   # column 0 was overwritten: h[0] does not enter through D or the diagonal
         rows = self.mat_apply(M, [ht])
-        r = mk('Add', rows[0], mk('Mul', M.col0, E('At', (h, 0), 's')))
+        r = mk('Add', rows[0], mk('Mul', M.col0, hi))
         self.bind_value('ret', r, True)
 
 
@@ -167,8 +168,9 @@ def programs(kinds):
     H0 = {'self.helicity == 0': True}
     HN = {'self.helicity == 0': False}
     P = []
-    P.append(('qsc/calculate_r1.py', '_residual', '', {}, {'x': var('x', 'p')}, Interp))
-    P.append(('qsc/calculate_r1.py', '_jacobian', '', {}, {'x': var('x', 'p')}, Jac))
+    X = StateVec(var('xs', 'p'), var('xi', 's'))
+    P.append(('qsc/calculate_r1.py', '_residual', '', {}, {'x': X}, Interp))
+    P.append(('qsc/calculate_r1.py', '_jacobian', '', {}, {'x': X}, Jac))
     P.append(('qsc/calculate_r1.py', 'r1_diagnostics', 'h0', H0, {}, Interp))
     P.append(('qsc/calculate_r1.py', 'r1_diagnostics', 'hN', HN, {}, Interp))
     P.append(('qsc/grad_B_tensor.py', 'calculate_grad_B_tensor', '', {'hasattr(__len__)': False}, {}, Interp))
